@@ -363,7 +363,7 @@ DOCOPS_DOCS = [("template", "spreadsheet"), ("file", "simple_table.ods"), ("temp
 def docops_alphabet(doc):
     names = [t.name for t in doc.body.get_tables()][:3]
     # (a common table style named like the names set_table_displayed generates: ta_<n>)
-    ops_ = [("page_break",), ("weak_page_break",), ("delete_styles",), ("insert", "paragraph", "A"), ("insert_auto", "table"), ("insert", "table", "ta_0"), ("insert", "table", "ta_1")]
+    ops_ = [("page_break",), ("weak_page_break",), ("stale_page_break",), ("delete_styles",), ("insert", "paragraph", "A"), ("insert_auto", "table"), ("insert", "table", "ta_0"), ("insert", "table", "ta_1")]
     for i, n in enumerate(names[:2]):
         ops_ += [("displayed", i, False), ("displayed", n, True)]
     if len(names) > 2:
@@ -424,6 +424,12 @@ def docops_task(seed):
             elif name == "weak_page_break":
                 # a style of that name without the break property: add_page_break_style must replace it, not duplicate
                 doc.insert_style(Style("paragraph", name="odfdopagebreak"))
+            elif name == "stale_page_break":
+                # a style of that name that breaks somewhere else (a legal value other than "page"):
+                # add_page_break_style must replace it as well
+                st = Style("paragraph", name="odfdopagebreak")
+                st.set_properties({"fo:break-after": "column"}, area="paragraph")
+                doc.insert_style(st)
             elif name == "delete_styles":
                 named = sum(1 for c in containers(doc).values() for e in c if isinstance(e.tag, str) and e.get("{%s}name" % STYLE_NS) is not None)
                 n = doc.delete_styles()
